@@ -41,6 +41,9 @@ func FromEnv(prefix string, input interface{}) error {
 		// MY_EXAMPLE=VALUE=value2
 		// -> []string{"MY_EXAMPLE", "VALUE=value2"}
 		envSplit := strings.SplitN(env, "=", 2)
+		if len(envSplit) != 2 {
+			continue
+		}
 		key, value := envSplit[0], envSplit[1]
 
 		if !strings.HasPrefix(key, prefix) {
